@@ -30,26 +30,26 @@ MODELS = {
 def tasks(tier, seed):
     ts = []
     q = tier == 'quick'
-    for L in (1, 2, 3, 4, 5, 6) if q else (1, 2, 3, 4, 5, 6, 7, 8, 9, 10):
+    for L in (1, 2, 3, 4, 5, 6, 7, 8) if q else (1, 2, 3, 4, 5, 6, 7, 8, 9, 10):
         ts.append(dict(name=f'ising_L{L}', model='ising', L=L, d=2))
         ts.append(dict(name=f'heisenberg_xxz_L{L}', model='heisenberg_xxz', L=L, d=2))
-    for L in (1, 2, 3, 4) if q else (1, 2, 3, 4, 5, 6):
+    for L in (1, 2, 3, 4, 5) if q else (1, 2, 3, 4, 5, 6):
         ts.append(dict(name=f'heisenberg_xxz_spin1_L{L}', model='heisenberg_xxz_spin1', L=L, d=3))
     for d in (1, 2, 3, 4):
         for L in (1, 2, 3):
             ts.append(dict(name=f'bose_hubbard_d{d}_L{L}', model='bose_hubbard', L=L, d=d))
     ts.append(dict(name='bose_hubbard_d2_L5', model='bose_hubbard', L=5, d=2))
     ts.append(dict(name='bose_hubbard_d3_L4', model='bose_hubbard', L=4, d=3))
+    ts.append(dict(name='bose_hubbard_d5_L2', model='bose_hubbard', L=2, d=5))
+    ts.append(dict(name='bose_hubbard_d2_L6', model='bose_hubbard', L=6, d=2))
     if not q:
-        ts.append(dict(name='bose_hubbard_d5_L2', model='bose_hubbard', L=2, d=5))
-        ts.append(dict(name='bose_hubbard_d2_L6', model='bose_hubbard', L=6, d=2))
         ts.append(dict(name='bose_hubbard_d2_L8', model='bose_hubbard', L=8, d=2))
         ts.append(dict(name='bose_hubbard_d4_L4', model='bose_hubbard', L=4, d=4))
         ts.append(dict(name='bose_hubbard_d6_L2', model='bose_hubbard', L=2, d=6))
         ts.append(dict(name='bose_hubbard_d3_L5', model='bose_hubbard', L=5, d=3))
-    for L in (1, 2, 3) if q else (1, 2, 3, 4, 5):
+    for L in (1, 2, 3, 4) if q else (1, 2, 3, 4, 5):
         ts.append(dict(name=f'fermi_hubbard_L{L}', model='fermi_hubbard', L=L, d=4))
-    for L in (1, 2, 3, 4, 5, 6) if q else (1, 2, 3, 4, 5, 6, 7, 8, 9, 10):
+    for L in (1, 2, 3, 4, 5, 6, 7, 8) if q else (1, 2, 3, 4, 5, 6, 7, 8, 9, 10):
         for ft in ('c', 'a'):
             ts.append(dict(name=f'linear_fermionic_{ft}_L{L}', model='linear_fermionic', L=L, d=2, ftype=ft))
     return ts
